@@ -67,7 +67,7 @@ def _case(draw):
     n = draw(st.integers(1, 4))
     comps = []
     for i in range(n):
-        k = draw(st.sampled_from(["when_fail", "when_fail", "when_fas", "fail_onmatch", "skip", "stop", "decider", "err", "push"]))
+        k = draw(st.sampled_from(["when_fail", "when_fail", "when_fas", "fail_onmatch", "skip", "stop", "decider", "err", "push", "err_then"]))
         c = _cond(draw, nrec)
         if k == "when_fail":
             comps.append(["->", c, ["f", "fail", [], []]])
@@ -86,6 +86,11 @@ def _case(draw):
             comps.append(c if c[0] != "f" or c[1] not in ("yes",) else ["h", "id"])
         elif k == "err":
             comps.append(["=", "zz", [], None, ["f", "add", [], [["h", "e"], ["t", 1]]]])
+        elif k == "err_then":
+            # the error and a skip()/stop() on the very same line (the error must still be handled)
+            comps.append(["=", "zz", [], None, ["f", "add", [], [["h", "e"], ["t", 1]]]])
+            comps.append(["f", draw(st.sampled_from(["skip", "stop"])), [], [["==", ["h", "e"], ["t", "x"]]]])
+            comps.append(["f", "push", [], [["t", "px"], ["f", "line_number", [], []]]])
         else:
             comps.append(["f", "push", [], [["t", "px"], ["f", "line_number", [], []]]])
     policy = draw(st.sampled_from(POLICIES))
